@@ -1208,3 +1208,21 @@ pub fn parse(s: &str) -> Option<(&str, i32, Unit)> {
 
     Some((lexer.remainder(), prefix, unit))
 }
+
+/// One raw step of the `Combined` lexer (verification hook).
+#[cfg(feature = "verif")]
+pub(crate) fn verif_step_combined(s: &str) -> Option<(Option<String>, usize)> {
+    let mut lexer = Combined::lexer(s);
+    let token = lexer.next()?;
+    let consumed = s.len() - lexer.remainder().len();
+    Some((token.ok().map(|t| format!("{:?}", t)), consumed))
+}
+
+/// One raw step of the `Units` lexer (verification hook).
+#[cfg(feature = "verif")]
+pub(crate) fn verif_step_units(s: &str) -> Option<(Option<String>, usize)> {
+    let mut lexer = Units::lexer(s);
+    let token = lexer.next()?;
+    let consumed = s.len() - lexer.remainder().len();
+    Some((token.ok().map(|t| format!("{:?}", t)), consumed))
+}
